@@ -260,6 +260,23 @@ class Impl(object):
             return (100 + code_of(e), False, '')
         return (0, not isinstance(o, self.bdt[v][dt]), t)
 
+    def observe_default(self, dt, s, v, lv):
+        """the same observation with the level in force through the library default (validation_level omitted)"""
+        before = self.hl7apy.get_default_validation_level()
+        self.hl7apy.set_default_validation_level(self.levels[lv])
+        try:
+            try:
+                o = self.factory(dt, s, v)
+            except Exception as e:   # noqa
+                return (code_of(e), False, '')
+            try:
+                t = o.to_er7(self.ec[v])
+            except Exception as e:   # noqa
+                return (100 + code_of(e), False, '')
+            return (0, not isinstance(o, self.bdt[v][dt]), t)
+        finally:
+            self.hl7apy.set_default_validation_level(before)
+
     def checkfn(self, dt, s):
         f = self.check.get(dt)
         if f is None:
@@ -701,6 +718,15 @@ def main(argv=None):
                 evals += 2
                 if dt in impl.bdt[v]:
                     orc.judge(dt, s, v, so, to, impl.checkfn(dt, s))
+                    # the level in force is the one given or, when none is given, the library default
+                    for lv, seen_obs in (('S', so), ('T', to)):
+                        od = impl.observe_default(dt, s, v, lv)
+                        evals += 1
+                        if od != seen_obs:
+                            run.fail('default-level-not-applied', 'datatype_factory without a validation level does not behave '
+                                     'as under the library default level', datatype=dt, version=v, input=s,
+                                     level={'S': 'STRICT', 'T': 'TOLERANT'}[lv], with_explicit_level=list(seen_obs),
+                                     with_default_level=list(od))
                 elif so[0] != 20 or to[0] != 20:
                     run.fail('missing-datatype-not-reported', 'a datatype the version lacks is not reported as '
                              'InvalidDataType', datatype=dt, version=v, input=s, code=so[0])
